@@ -21,6 +21,7 @@ type Config struct {
 	PLiteral      int // use a literal even when a ref is available
 	PNullLit      int
 	PFileTypes    int // bias towards file-like leaf types
+	POutClash     int // explicit out name equal to a sibling's default output file name (the compiler must reject it)
 	PPreflight    int
 	PVolatile     int
 	PRetain       int
@@ -879,6 +880,9 @@ func (g *gen) genPipeline(level int) *Pipeline {
 				p.Help = "h"
 				p.OutName = "o_" + p.Name + ".bin"
 			}
+			if t.IsFileLike() && g.pct(g.cfg.POutClash) {
+				g.clashOutName(&p, pl.Outs)
+			}
 			pl.Outs = append(pl.Outs, p)
 			pl.Ret = append(pl.Ret, Binding{Id: p.Name, Exp: e.exp})
 		} else {
@@ -895,6 +899,36 @@ func (g *gen) genPipeline(level int) *Pipeline {
 		}
 	}
 	return pl
+}
+
+// DefaultOutName is the file name under outs/ of an output without an
+// explicit out name.
+func DefaultOutName(id string, t *Type) string {
+	if t.Kind == KUserFile {
+		return id + "." + t.Name
+	}
+	return id
+}
+
+// clashOutName gives p (or an earlier sibling) an explicit out name equal to
+// the default output file name of the other.
+func (g *gen) clashOutName(p *Param, sibs []Param) {
+	var cand []int
+	for i, o := range sibs {
+		if o.OutName == "" && o.Type.ContainsFile(g.p) {
+			cand = append(cand, i)
+		}
+	}
+	if len(cand) == 0 {
+		return
+	}
+	o := &sibs[cand[g.r.Intn(len(cand))]]
+	if g.pct(50) && o.Type.IsFileLike() {
+		o.Help, o.OutName = "clash", DefaultOutName(p.Name, p.Type)
+		p.OutName = ""
+	} else {
+		p.Help, p.OutName = "clash", DefaultOutName(o.Name, o.Type)
+	}
 }
 
 // Generate builds a random program.
@@ -917,6 +951,9 @@ func Generate(seed int64, cfg *Config) *Program {
 			if f.Type.IsFileLike() && g.pct(20) {
 				f.Help = "fh"
 				f.OutName = "sf_" + f.Name + ".out"
+			}
+			if f.Type.IsFileLike() && g.pct(cfg.POutClash) {
+				g.clashOutName(&f, s.Fields)
 			}
 			s.Fields = append(s.Fields, f)
 		}
